@@ -85,6 +85,10 @@ static_assert(!std::numeric_limits<Arch>::is_specialized);
 
 #include <bspline/Core.h>
 #include <bspline/interpolation/interpolation.h>
+#ifdef VERIF_FP
+#include <algorithm>
+#include <bspline/integration/numerical.h>
+#endif
 
 namespace vh {
 
